@@ -7,13 +7,21 @@ import numpy as np
 from . import common
 
 PROP = "C03"
-MODULES = ["PdsVerif.Props.C03"]
+MODULES = ["PdsVerif.Props.SiFrameTie", "PdsVerif.Props.C03"]
 MODEL_MODULES = ["PdsVerif.Model.Si"]
 REQUIRED = ["PdsVerif.C03." + n for n in [
     "circConv_eq_idft_dft_mul", "overlap_save_valid", "overlap_save_lastK", "accumulate_spec", "si_full_count", "si_full_spec", "si_spec_coef",
     "si_energy", "si_dtype", "si_dtype_nonfloat", "si_full_spec_gaussian", "si_stream_eq_full", "si_stream_eq_spec",
     "si_stream_chunk", "si_stream_emitted_le",
-]]
+]] + ["PdsVerif.SiFrameTie.si_frame_spec", "PdsVerif.SiFrameTie.si_frame_ge_log_floor"]
+
+
+def translate(repo):
+    """ShortIntegrationFrameComputer._compute_frame (sum of the half-frame accumulators, log floor) ->
+    Generated/SiFrame.lean (theorem: Props/SiFrameTie.lean)"""
+    from .translate import framecoeff
+    return framecoeff.generate_si(repo)
+
 RULE = (
     "IntFIR correspondence: (frame_shift S, 1-3 filters with integer or Gaussian-integer taps on chosen half-open "
     "supports incl. negative left ends, causal/centred, padded/unpadded/oversized DFT, energy on/off, power/magnitude) "
